@@ -12,6 +12,7 @@ pub mod tparams;
 pub mod c14;
 pub mod c12;
 pub mod cindex;
+pub mod cidecho;
 pub mod dgram;
 pub mod mtud;
 pub mod streams;
@@ -44,6 +45,7 @@ pub fn lookup(name: &str) -> Option<(&'static str, GenFn)> {
         "sentpk" => (c12::SENTPK_RULE, c12::sentpk as GenFn),
         "cc" => (c12::CC_RULE, c12::cc as GenFn),
         "cindex" => (cindex::CINDEX_RULE, cindex::cindex as GenFn),
+        "cidecho" => (cidecho::CIDECHO_RULE, cidecho::cidecho as GenFn),
         "dgram" => (dgram::DGRAM_RULE, dgram::dgram as GenFn),
         "mtud" => (mtud::MTUD_RULE, mtud::mtud as GenFn),
         "streams" => (streams::STREAMS_RULE, streams::streams as GenFn),
